@@ -12,13 +12,19 @@ How the source is read (by structure and role, not by spelling):
  2. a declaration scanner collects classes (bases in order, data members with type and initialiser,
     `using` aliases, member functions) and namespace-scope constants / functions;
  3. the bodies of the anchored functions are parsed by a small recursive-descent parser (blocks,
-    if/else, return, declarations, expression statements; full expression grammar incl. lambdas,
-    casts, `new`, ternaries) -- any other statement raises;
+    if/else and switch/case/break, both also with an init-statement `if (init; cond)` or a condition
+    declaration `if (T x = e)`, return, declarations, expression statements; full expression grammar incl.
+    lambdas, casts, `new`, ternaries, comma) -- any other statement raises;
  4. a symbolic executor runs them path by path: locals hold symbolic values (result of the k-th shared
-    read, null, the fresh object, ...), a branch on a value whose nullness is already known on the path
-    follows one side only, calls of functions defined in the same file are inlined, lock guards
-    release at the end of their scope, named constants and aliases are resolved.  Shared objects are
-    recognised by their declared type (std::mutex, std::atomic<..>, std::unique_ptr<..>, raw pointer);
+    read, null, the fresh object, `this`, ...), a branch on a value whose nullness is already known on the
+    path follows one side only, calls of functions defined in the same file are inlined (free functions,
+    static and non-static members of the class or of a direct base, also through `this->` / a local or
+    init-capture that holds `this`; arguments are substituted, so a helper `set( bool)` called with a
+    literal stores that literal; names inside a base's member function are looked up in the base), lock
+    guards release at the end of their scope, named constants and aliases are resolved.  Operands whose
+    order of evaluation the language leaves open may not both touch shared state, nor one assign a local
+    the other uses.  Shared objects are recognised by their declared type (std::mutex, std::atomic<..>,
+    std::unique_ptr<..>, raw pointer);
  5. the resulting set of paths (sequence of shared accesses + decisions + what is returned) is compared
     with the path sets of the two shapes the Lean model covers.  Everything else raises
     ValueError -- a broken tie, never a default.
@@ -205,9 +211,10 @@ class Var:
 
 
 class Func:
-    def __init__(self, name, cls, params, body, inits, static, access, ret_toks):
+    def __init__(self, name, cls, params, body, inits, static, access, ret_toks, virtual=False):
         self.name, self.cls, self.params, self.body, self.inits = name, cls, params, body, inits
         self.static, self.access, self.ret_toks = static, access, ret_toks
+        self.virtual = virtual          # declared virtual / override / final / pure: which body runs is not known statically
 
 
 class Cls:
@@ -457,9 +464,12 @@ class Unit:
         sn = self.split_name(head)
         j = rp + 1
         ret_extra = []
+        virt = any(x.k == "id" and x == "virtual" for x in head)
         while j < end:
             t = toks[j]
             if t.k == "id" and t in ("const", "volatile", "override", "final", "mutable"):
+                if t in ("override", "final"):
+                    virt = True
                 j += 1
             elif t.k == "id" and t in ("noexcept", "throw"):
                 j += 1
@@ -533,7 +543,7 @@ class Unit:
                 params.append((part, pname, pack))
         owner_cls = cls.name if cls else owner
         f = Func(name, owner_cls, params, body, inits, "static" in pre, access if cls else None,
-                 [x for x in pre if not (x.k == "id" and x in SPECIFIERS and x != "const")] + ret_extra)
+                 [x for x in pre if not (x.k == "id" and x in SPECIFIERS and x != "const")] + ret_extra, virt)
         table = self.funcs
         if owner_cls:
             c = cls or self.classes.get(owner_cls)
@@ -549,8 +559,8 @@ class Unit:
 BUILTIN_TYPES = ("bool", "char", "short", "int", "long", "unsigned", "signed", "float", "double", "void", "auto",
                  "size_t", "wchar_t")
 CASTS = ("static_cast", "const_cast", "reinterpret_cast", "dynamic_cast")
-UNSUPPORTED_STMT = ("while", "for", "do", "switch", "try", "goto", "throw", "case", "default", "break", "continue",
-                    "co_return", "co_await", "co_yield", "asm")
+UNSUPPORTED_STMT = ("while", "for", "do", "try", "goto", "throw", "case", "default", "continue",
+                    "co_return", "co_await", "co_yield", "asm")        # case / default: only directly in a switch body
 BINPREC = {"||": 1, "&&": 2, "|": 3, "^": 4, "&": 5, "==": 6, "!=": 6, "<": 7, ">": 7, "<=": 7, ">=": 7,
            "+": 9, "-": 9, "*": 10, "/": 10, "%": 10}
 ASSIGN_OPS = ("=", "+=", "-=", "*=", "/=", "%=", "&=", "|=", "^=")
@@ -561,7 +571,11 @@ class Parser:
        ("name", [parts], targs) ("lit", text) ("this",) ("call", f, args) ("member", obj, op, name)
        ("unary", op, e) ("binary", op, a, b) ("assign", op, a, b) ("cond", c, a, b) ("new", type, args)
        ("cast", type, e) ("pack", e) ("lambda", captures, params, body) ("construct", type, args) ("index", a, b)
-       statements: ("block", [..]) ("if", c, a, b) ("return", e) ("decl", type, name, init, kind) ("expr", e) ("empty",)"""
+       ("comma", [e..])
+       statements: ("block", [..]) ("if", c, a, b) ("return", e) ("decl", type, name, init, kind) ("expr", e) ("empty",)
+       ("switch", c, [(labels, [stmts])]) with labels = list of expressions / "default"; ("break",).
+       `if (init; c) A else B` is returned as the block { init; if (c) A else B } and `if (T x = e) A else B` as
+       { T x = e; if (x) A else B } (the same scopes and the same order of evaluation); likewise for switch."""
 
     def __init__(self, toks, what):
         self.t, self.i, self.what = list(toks), 0, what
@@ -615,18 +629,23 @@ class Parser:
                 self.i += 1
                 if self.at("constexpr"):
                     self.err("unsupported `if constexpr`")
-                self.eat("(")
-                e = match_close(self.t, self.i - 1)
-                if any(y == ";" and y.k == "op" for y in self.t[self.i:e]):
-                    self.err("unsupported if with init-statement")
-                c = self.expression()
-                self.eat(")")
+                pre, c = self.condition()
                 a = self.statement()
                 b = None
                 if self.at("else"):
                     self.i += 1
                     b = self.statement()
-                return ("if", c, a, b)
+                s = ("if", c, a, b)
+                return ("block", pre + [s]) if pre else s
+            if x == "switch":
+                self.i += 1
+                pre, c = self.condition()
+                s = ("switch", c, self.switch_body())
+                return ("block", pre + [s]) if pre else s
+            if x == "break":
+                self.i += 1
+                self.eat(";")
+                return ("break",)
             if x == "return":
                 self.i += 1
                 if self.at(";"):
@@ -643,6 +662,90 @@ class Parser:
         e = self.expression()
         self.eat(";")
         return ("expr", e)
+
+    def condition(self):
+        """`( [init-statement] condition )` of if / switch -> (statements to run first in a scope of their own, expression).
+        init-statement: expression statement, simple declaration or `;`; condition: expression or `T x = e` / `T x{e}`"""
+        self.eat("(")
+        e = match_close(self.t, self.i - 1)
+        pre = []
+        semis = []
+        j = self.i
+        while j < e:                                 # top-level semicolons only (a lambda body may contain some)
+            y = self.t[j]
+            if y.k == "op" and y in OPEN:
+                j = match_close(self.t, j) + 1
+                continue
+            if y.k == "op" and y == ";":
+                semis.append(j)
+            j += 1
+        if len(semis) > 1:
+            self.err("cannot read the condition")
+        if semis:
+            x = self.peek()
+            if x.k == "id" and (x in UNSUPPORTED_STMT or x in ("if", "switch", "break", "return", "using", "typedef", "static_assert",
+                                                                 "namespace", "class", "struct", "enum", "template")):
+                self.err("unsupported init-statement")
+            if x.k == "op" and x == "{":
+                self.err("unsupported init-statement")
+            init = self.statement()
+            if self.i != semis[0] + 1 or init[0] not in ("decl", "expr", "empty"):
+                self.err("cannot read the init-statement")
+            if init[0] != "empty":
+                pre.append(init)
+        d = self.try_declaration(cond=True)
+        if d is not None:
+            pre.append(d)
+            c = ("name", [d[2]], None)
+        else:
+            c = self.expression()
+        if self.i != e:
+            self.err("cannot read the condition")
+        self.eat(")")
+        return pre, c
+
+    def switch_body(self):
+        """{ case L: ... default: ... } -> [(labels, statements)]; labels only directly in the body"""
+        if not self.at("{"):
+            self.err("switch without a compound statement")
+        e = match_close(self.t, self.i)
+        self.i += 1
+        sections = []
+        while self.i < e:
+            labels = []
+            while True:
+                while self.at("[") and self.at("[", 1):      # [[fallthrough]]; [[likely]]
+                    self.i = match_close(self.t, self.i) + 1
+                    if self.at(";"):
+                        self.i += 1
+                if self.at("case"):
+                    self.i += 1
+                    j = self.i
+                    while j < e and not (self.t[j].k == "op" and self.t[j] == ":"):
+                        if self.t[j].k == "op" and self.t[j] == "?":
+                            self.err("unsupported case label")
+                        j += 1
+                    sub = Parser(self.t[self.i:j], self.what + " (case label)")
+                    lab = sub.assignment()
+                    if sub.i != len(sub.t) or j >= e:
+                        self.err("cannot read the case label")
+                    labels.append(lab)
+                    self.i = j + 1
+                elif self.at("default") and self.at(":", 1):
+                    labels.append("default")
+                    self.i += 2
+                else:
+                    break
+            if not labels:
+                if not sections:
+                    self.err("statement in a switch before the first label")
+                sections[-1][1].append(self.statement())
+            else:
+                sections.append((labels, []))
+        self.i = e + 1
+        if sum(1 for ls, _ in sections for l in ls if l == "default") > 1:
+            self.err("switch with two default labels")
+        return sections
 
     def try_type(self):
         """type at the cursor -> token list (cursor after it), or None (cursor unchanged)"""
@@ -686,7 +789,7 @@ class Parser:
             self.i += 1
         return ty
 
-    def try_declaration(self):
+    def try_declaration(self, cond=False):
         save = self.i
         ty = self.try_type()
         if ty is None:
@@ -698,6 +801,14 @@ class Parser:
         name = str(x)
         self.i += 1
         k = self.peek()
+        if cond:
+            if k == "=" and not self.at("{", 1):
+                self.i += 1
+                return ("decl", ty, name, [self.assignment()], "=")
+            if k == "{":
+                return ("decl", ty, name, self.arg_list("{", "}"), "{")
+            self.i = save
+            return None
         if k == ";":
             self.i += 1
             return ("decl", ty, name, [], None)
@@ -708,6 +819,8 @@ class Parser:
                 self.eat(";")
                 return ("decl", ty, name, args, "{")
             e = self.assignment()
+            if self.at(","):
+                self.err("unsupported declaration with several declarators")
             self.eat(";")
             return ("decl", ty, name, [e], "=")
         args = self.arg_list(str(k), OPEN[k])
@@ -739,7 +852,11 @@ class Parser:
     def expression(self):
         e = self.assignment()
         if self.at(","):
-            self.err("unsupported comma operator")
+            es = [e]
+            while self.at(","):
+                self.i += 1
+                es.append(self.assignment())
+            return ("comma", es)
         return e
 
     def assignment(self):
@@ -951,6 +1068,38 @@ def squeeze(s):
     return re.sub(r"\s+", "", s)
 
 
+def side_effects(e):
+    """(locals assigned, simple names mentioned) in an expression tree; lambda bodies run later and are skipped"""
+    asg, used = set(), set()
+
+    def walk(x):
+        if isinstance(x, (list,)):
+            for y in x:
+                walk(y)
+            return
+        if not isinstance(x, tuple) or not x:
+            return
+        if x[0] == "lambda":
+            for c in x[1]:                       # captures are evaluated where the lambda is written
+                for tok in c:
+                    if getattr(tok, "k", None) == "id":
+                        used.add(str(tok))
+            return
+        if x[0] == "name":
+            if len(x[1]) == 1:
+                used.add(x[1][0])
+            return
+        if x[0] == "assign" and x[2][0] == "name" and len(x[2][1]) == 1:
+            asg.add(x[2][1][0])
+        if x[0] in ("lit", "this"):
+            return
+        for y in x[1:]:
+            if isinstance(y, (tuple, list)):
+                walk(y)
+    walk(e)
+    return asg, used
+
+
 def type_text(toks):
     return "".join(("const " if x == "const" else str(x)) for x in toks).strip()
 
@@ -972,6 +1121,7 @@ class State:
         self.owner = {}        # owning pointer -> value it is known to hold (set while locked, on this path)
         self.ret = None
         self.returned = False
+        self.broke = False     # a `break` is unwinding to the enclosing switch
         self.guards = 0
 
     def clone(self):
@@ -987,6 +1137,8 @@ class Exec:
         self.unit, self.cls = unit, cls
         self.depth = 0
         self.parsed = {}
+        self.ctx = []          # class whose member function body is being executed (innermost last); names are looked
+                               # up in that class and its bases, not in the class the walk started from
 
     # ---------------------------------------------------------------- types and roles
     def resolve_type(self, toks, n=0):
@@ -1009,16 +1161,33 @@ class Exec:
             out.append(x)
         return self.resolve_type(out, n + 1) if changed else out
 
-    def class_chain(self):
-        """the class under translation and its direct bases defined in the same file"""
+    def class_chain(self, of=None):
+        """the class whose code is being executed (or `of`) and its direct bases defined in the same file"""
         res = []
-        if self.cls is not None:
-            res.append(self.cls)
-            for _, b in self.cls.bases:
+        cur = of if of is not None else (self.ctx[-1] if self.ctx else self.cls)
+        if cur is not None:
+            res.append(cur)
+            for _, b in cur.bases:
                 names = [x for x in b if x.k == "id"]
                 if names and str(names[-1]) in self.unit.classes and "<" not in b:
                     res.append(self.unit.classes[str(names[-1])])
         return res
+
+    def own_object_chain(self):
+        """classes whose members can be named through a pointer to the object under translation: the class the walk
+        started from and its direct bases (a pointer to the own object is typed as the most derived class, see
+        check_this_type)"""
+        return self.class_chain(of=self.cls)
+
+    def check_this_type(self, ty, what):
+        """a local / parameter that receives `this` must be declared auto / auto* / <own class>*: through a pointer to
+        a base the names would be looked up in the base only, which the translator does not model"""
+        core = [str(x) for x in self.resolve_type(ty) if not (x.k == "id" and x in ("const", "volatile", "constexpr"))]
+        s = "".join(core)
+        cur = self.ctx[-1] if self.ctx else self.cls
+        if s in ("auto", "auto*") or (cur is not None and (s == cur.name + "*" or s.endswith("::" + cur.name + "*"))):
+            return
+        fail("%s receives `this` but is declared %s (only auto / auto* / %s* are followed)" % (what, type_text(ty), cur.name if cur else "?"))
 
     def role_of(self, type_toks):
         ty = self.resolve_type(type_toks)
@@ -1178,14 +1347,28 @@ class Exec:
 
     # ---------------------------------------------------------------- expressions
     def ev_list(self, st, exprs):
-        res = [(st, [])]
+        """operands of one operator / arguments of one call.  Their evaluation order is not fixed by the language
+        (or not the one used here), so: at most one of them may access shared state or take a decision, and none may
+        assign a local another one mentions -- otherwise the order of the events would be a guess"""
+        if len(exprs) > 1:
+            eff = [side_effects(e) for e in exprs]
+            for i, (asg, _) in enumerate(eff):
+                for j, (_, used) in enumerate(eff):
+                    if i != j and asg & used:
+                        fail("operands are not sequenced: %s is assigned in one and used in another" % ", ".join(sorted(asg & used)))
+        res = [(st, [], 0)]
         for e in exprs:
             nxt = []
-            for s, vs in res:
-                for s2, v in self.ev(s, e):
-                    nxt.append((s2, vs + [v]))
+            for s, vs, active in res:
+                n0, d0 = len(s.events), len(s.order)
+                r = self.ev(s, e)
+                for s2, v in r:
+                    a2 = active + (1 if (len(s2.events) != n0 or len(s2.order) != d0 or len(r) > 1) else 0)
+                    if a2 > 1:
+                        fail("operands are not sequenced: more than one of them accesses shared state")
+                    nxt.append((s2, vs + [v], a2))
             res = nxt
-        return res
+        return [(s, vs) for s, vs, _ in res]
 
     def ev(self, st, e):
         """-> [(state, value)]"""
@@ -1223,6 +1406,8 @@ class Exec:
                     v = self.rvalue(s, v)
                     if v[0] == "int" and v[1] == 0 and ty.endswith("*"):
                         v = ("null",)
+                    if v[0] == "this":
+                        self.check_this_type(e[1], "a cast")
                     res.append((s, v))
             return res
         if k == "unary":
@@ -1280,6 +1465,14 @@ class Exec:
             return res
         if k == "construct":
             return self.ev_call(st, ("call", e[1], e[2]))
+        if k == "comma":                     # sequenced left to right, only the last value is used
+            res = [(st, ("void",))]
+            for sub in e[1]:
+                nxt = []
+                for s, _ in res:
+                    nxt += self.ev(s, sub)
+                res = nxt
+            return res
         fail("unsupported expression (%s)" % k)
 
     def bind_truth(self, st, e):
@@ -1292,6 +1485,8 @@ class Exec:
         """data member named through an object expression (this->x, (*this).x)"""
         if o[0] == "this" or (o[0] == "deref" and o[1] == ("this",)):
             parts = name[1]
+            if len(parts) != 1:
+                fail("qualified member name %s through a pointer to the own object" % "::".join(parts))
             c, v = self.find_member(parts[-1])
             if v is None:
                 fail("unknown member %s" % parts[-1])
@@ -1413,10 +1608,9 @@ class Exec:
                     for s, vs in self.ev_list(st, args):
                         res += self.call_value(s, local, vs)
                     return res
-                cands = []
-                for c in chain:
-                    cands += [(c, x) for x in c.funcs.get(own[0], [])]
-                cands += [(None, x) for x in self.unit.funcs.get(own[0], [])]
+                cands = self.member_funcs(own[0])
+                if not cands:
+                    cands = [(None, x) for x in self.unit.funcs.get(own[0], [])]
                 if cands:
                     for s, vs in self.ev_list(st, args):
                         res += self.inline(s, own[0], cands, vs)
@@ -1461,12 +1655,13 @@ class Exec:
         if o[0] == "addr" and op == "->":
             o = o[1]
         elif o[0] == "this" or (o[0] == "deref" and o[1] == ("this",)):
-            cands = []
-            for c in self.class_chain():
-                cands += [(c, x) for x in c.funcs.get(m, [])]
+            # this->f(), (*this).f(), self->f() with self = this: a value ("this",) exists only where an object does
+            if len(name[1]) != 1:
+                fail("qualified call %s through a pointer to the own object" % "::".join(name[1]))
+            cands = self.member_funcs(m)
             if not cands:
                 fail("call of the member function %s, which is not defined in this file" % m)
-            return self.inline(st, m, cands, vs)
+            return self.inline(st, m, cands, vs, this=True)
         elif op == "->" and not (o[0] == "shared" and o[3] == "unique_ptr"):
             fail("-> on a value the translator cannot follow (%s)" % (o,))
         if o[0] == "guardobj":
@@ -1507,6 +1702,14 @@ class Exec:
                 return [(st, ("void",))]
             fail("mutex operation %s is not covered by the model" % m)
         fail("call of %s on %s (%s)" % (m, o[2], role))
+
+    def member_funcs(self, m):
+        """member functions named m as seen from the class whose code is executed: the first class of the chain that
+        declares the name hides the others (no overloading across classes)"""
+        for c in self.class_chain():
+            if m in c.funcs:
+                return [(c, x) for x in c.funcs[m]]
+        return []
 
     def lock(self, st, sh):
         if sh[1:] in st.held:
@@ -1550,6 +1753,8 @@ class Exec:
             has_this = False
         elif c is not None and not has_this:
             fail("non-static member function %s called where no object is available" % name)
+        if f.virtual or any(x.virtual for _, x in cands):
+            fail("call of the virtual member function %s: which body runs is not known statically" % name)
         self.depth += 1
         if self.depth > self.MAX_DEPTH:
             fail("calls nested deeper than %d (recursion?) at %s" % (self.MAX_DEPTH, name))
@@ -1568,17 +1773,28 @@ class Exec:
                 role, ref = self.role_of(pty)
                 if val[0] == "shared" and not ref:
                     val = self.rvalue(st, val)
+                if val[0] == "this":
+                    self.check_this_type(pty, "parameter %s of %s" % (pname, name))
             if pname:
                 vars_[pname] = val
         if k < len(vs) and not all(v[0] == "packval" for v in vs[k:]):
             fail("too many arguments in a call of %s" % name)
         st.frames.append({"scopes": [{"vars": vars_, "guards": []}], "outer": None, "this": has_this})
-        out = []
-        for s in self.exec_stmt(st, body):
-            s.frames.pop()
-            v = s.ret if s.returned else ("void",)
-            s.ret, s.returned = None, False
-            out.append((s, v))
+        self.ctx.append(c if c is not None else (self.ctx[-1] if self.ctx else self.cls))
+        try:
+            out = []
+            for s in self.exec_stmt(st, body):
+                if s.broke:
+                    fail("`break` outside a switch in %s" % name)
+                s.frames.pop()
+                v = s.ret if s.returned else ("void",)
+                s.ret, s.returned = None, False
+                out.append((s, v))
+        finally:
+            self.ctx.pop()
+        for _, v in out:
+            if v[0] == "this":           # checked against the class of the caller
+                self.check_this_type(f.ret_toks, "the result of %s" % name)
         self.depth -= 1
         return out
 
@@ -1624,7 +1840,7 @@ class Exec:
             for n, v in visible.items():
                 env.setdefault(n, v)
             this = fr["this"]
-        return ("closure", id(e), this, tuple(sorted(env.items())), ClosureRef(e))
+        return ("closure", id(e), this, tuple(sorted(env.items())), ClosureRef(e, self.ctx[-1] if self.ctx else self.cls))
 
     def run_closure(self, st, cl, vs):
         e = cl[4].node
@@ -1643,23 +1859,34 @@ class Exec:
         if self.depth > self.MAX_DEPTH:
             fail("calls nested deeper than %d" % self.MAX_DEPTH)
         st.frames.append({"scopes": [{"vars": vars_, "guards": []}], "outer": None, "this": cl[2]})
-        out = []
-        for s in self.exec_stmt(st, e[3]):
-            s.frames.pop()
-            v = s.ret if s.returned else ("void",)
-            s.ret, s.returned = None, False
-            out.append((s, v))
+        self.ctx.append(cl[4].cls)
+        try:
+            out = []
+            for s in self.exec_stmt(st, e[3]):
+                if s.broke:
+                    fail("`break` outside a switch in a lambda")
+                s.frames.pop()
+                v = s.ret if s.returned else ("void",)
+                s.ret, s.returned = None, False
+                out.append((s, v))
+        finally:
+            self.ctx.pop()
         self.depth -= 1
         return out
 
     # ---------------------------------------------------------------- statements
     def exec_stmt(self, st, s):
         """-> [state]; a state that has executed `return` carries .returned"""
-        if st.returned:
+        if st.returned or st.broke:
             return [st]
         k = s[0]
         if k == "empty":
             return [st]
+        if k == "break":
+            st.broke = True
+            return [st]
+        if k == "switch":
+            return self.exec_switch(st, s)
         if k == "block":
             st.frames[-1]["scopes"].append({"vars": {}, "guards": []})
             states = [st]
@@ -1700,6 +1927,46 @@ class Exec:
             return self.exec_decl(st, s)
         fail("unsupported statement %s" % k)
 
+    def exec_switch(self, st, s):
+        """the controlling value must be a constant or decided by a fork on a shared read; labels must be constants;
+        execution starts at the matching label (else `default`, else nothing) and runs through the following
+        sections until `break` / `return` -- one scope for the whole body, as in C++"""
+        out = []
+        for x, v in self.ev(st, s[1]):
+            v = self.rvalue(x, v)
+            if v[0] in ("bool", "int"):
+                forks = [(x, int(v[1]))]
+            elif v[0] == "not" or (v[0] == "read" and not self.is_ptr_read(x, v)):
+                forks = [(x2, int(b)) for x2, b in self.truth(x, v)]
+            else:
+                fail("switch on a value the translator cannot follow (%s)" % (v,))
+            for x2, val in forks:
+                start, dflt, seen = None, None, set()
+                for n, (labels, _) in enumerate(s[2]):
+                    for lab in labels:
+                        if lab == "default":
+                            dflt = n
+                            continue
+                        r = self.ev(x2, lab)
+                        if len(r) != 1 or r[0][1][0] not in ("bool", "int") or r[0][0] is not x2:
+                            fail("case label that is not a constant")
+                        lv = int(r[0][1][1])
+                        if lv in seen:
+                            fail("duplicate case label")
+                        seen.add(lv)
+                        if lv == val and start is None:
+                            start = n
+                if start is None:
+                    start = dflt
+                if start is None:
+                    out.append(x2)
+                    continue
+                body = [sub for _, stmts in s[2][start:] for sub in stmts]
+                for y in self.exec_stmt(x2, ("block", body)):
+                    y.broke = False
+                    out.append(y)
+        return out
+
     def exec_decl(self, st, s):
         _, ty, name, init, kind = s
         role, ref = self.role_of(ty)
@@ -1737,6 +2004,8 @@ class Exec:
                 v = self.rvalue(x, v)
             if v[0] == "int" and v[1] == 0 and role == "plain_ptr":
                 v = ("null",)
+            if v[0] == "this":
+                self.check_this_type(ty, "local %s" % name)
             if role == "plain_bool" and v[0] in ("read", "not", "null", "new", "addr"):
                 b = self.truth(x, v) if v[0] != "read" or self.is_ptr_read(x, v) else [(x, None)]
                 for x2, t in b:
@@ -1755,8 +2024,8 @@ class Exec:
 class ClosureRef:
     """keeps the lambda's syntax tree out of deepcopy / comparisons"""
 
-    def __init__(self, node):
-        self.node = node
+    def __init__(self, node, cls=None):
+        self.node, self.cls = node, cls
 
     def __deepcopy__(self, memo):
         return self
